@@ -162,13 +162,35 @@ def dec_bytes(v) -> bytes:
 # the world: a disk model mirrored into the sandbox directory
 
 
+FS_EPOCH_NS = 1_700_000_000 * 10**9
+
+
 class World:
-    def __init__(self):
+    def __init__(self, fsclock=None):
         self.files: dict[str, bytes] = {}  # canonical path -> content
         self.dirs: set[str] = {ROOT}
         self.journal: list[dict] = []
         self.links: dict[str, str] = {}
         self._open = builtins.open
+        # The file system's clock belongs to the simulator: every file written by the environment
+        # gets its time stamp from here, never from the host.  "fine": every write is 1 ms later
+        # than the previous one; "coarse": the stamp advances by 1 s on every third write (file
+        # systems with one- or two-second stamps, fast successive writes); "frozen": all stamps
+        # are equal (restored stamps: cp -p, rsync -t, build systems, virtual clocks)
+        self.fsclock = fsclock or "fine"
+        self.fs_now = FS_EPOCH_NS
+        self.fs_writes = 0
+
+    def _stamp(self, rp: str):
+        self.fs_writes += 1
+        if self.fsclock == "fine":
+            self.fs_now += 1_000_000
+        elif self.fsclock == "coarse" and self.fs_writes % 3 == 0:
+            self.fs_now += 10**9
+        try:
+            os.utime(rp, ns=(self.fs_now, self.fs_now))
+        except OSError:
+            pass
 
     def mkdir(self, path: str):
         parts = path.split("/")
@@ -185,6 +207,7 @@ class World:
         self.files[path] = data
         with self._open(real(path), "wb") as f:
             f.write(data)
+        self._stamp(real(path))
 
     def delete(self, path: str):
         if path in self.files:
